@@ -1,4 +1,8 @@
+import PycsepVerif.Proto
 import PycsepVerif.Soft64
+import PycsepVerif.Drive.Soft
 import PycsepVerif.Model.Ecdf
 import PycsepVerif.Proofs.Ecdf
 import PycsepVerif.Properties.C09
+import PycsepVerif.Drive.C09
+-- REGISTER-LIB (imports of new Model/Proofs/Properties/Drive modules above this line)
